@@ -734,6 +734,122 @@ fn loopback_identity(env: &Env, src: &mut Src<'_>) -> CaseResult {
     Ok(CaseOk::new(true, &(fl, tls, kind, tag), case).labels(labels))
 }
 
+// ------------------------------------------------------------------------------------------
+// sub-check: TLS servers whose view of the network lacks the certificate of some peers
+// ------------------------------------------------------------------------------------------
+
+/// `certificate` is optional in the network configuration (a helper's own entry, a peer that has
+/// not been filled in yet). Whatever entries lack a certificate, a TLS caller without a client
+/// certificate has no verified identity: peer routes answer 401 and nothing reaches the handler,
+/// with or without an identity header; a caller with the certificate of a peer that still has
+/// one is served under that identity; collector routes stay reachable.
+fn missing_certificates(env: &Env, src: &mut Src<'_>) -> CaseResult {
+    use crate::net::test::{ClientIdentities, TestNetwork};
+    // non-empty strict subset of {0,1,2}: rustls needs at least one trust anchor
+    let strip: Vec<usize> = match src.below(6) {
+        0 => vec![0],
+        1 => vec![1],
+        2 => vec![2],
+        3 => vec![0, 1],
+        4 => vec![0, 2],
+        _ => vec![1, 2],
+    };
+    let cred = match src.below(4) {
+        0 | 1 => Cred::None,
+        _ => Cred::Cert(src.idx(3)),
+    };
+    let header: Option<String> = match src.below(4) {
+        0 | 1 => None,
+        k => Some(["A", "B", "C"][(k - 1) as usize % 3].to_string()),
+    };
+    let kind = src.pick(&["step", "prepare", "collector"]);
+    let tag = src.u64();
+    let gate_name = format!("c20m-{tag:016x}");
+    let body: Vec<u8> = {
+        let n = src.urange(1, 48);
+        src.bytes(n)
+    };
+    let cert_known = matches!(cred, Cred::Cert(i) if !strip.contains(&i));
+    let reached = Arc::new(AtomicUsize::new(0));
+    let (reached2, strip2, header2, gate2, body2) = (Arc::clone(&reached), strip.clone(), header.clone(), gate_name.clone(), body.clone());
+    let cred_i = match cred {
+        Cred::Cert(i) => Some(i),
+        _ => None,
+    };
+    let outcome: Result<(Seen, usize), String> = block_on_io(async move {
+        // sockets bound to ephemeral ports (several cases run in parallel)
+        let mut test_config = TestConfig::builder().build();
+        let TestNetwork { network, servers } = test_config.rings.pop().ok_or("no ring")?;
+        let mut h1 = servers.into_iter().next().ok_or("no server")?;
+        let h1_peer = network.peers[0].clone();
+        let mut view = network.clone();
+        for i in &strip2 {
+            view.peers[*i].certificate = None;
+        }
+        let clients = IpaHttpClient::from_conf(&IpaRuntime::current(), &network, &ClientIdentities::new(false, ShardedHelperIdentity::ONE_FIRST).helper);
+        let handler = ok_handler::<HelperIdentity>(reached2.clone());
+        let (_transport, server) = MpcHttpTransport::new(IpaRuntime::current(), HelperIdentity::ONE, h1.config.clone(), view, &clients, Some(HandlerBox::owning_ref(&handler)));
+        let (addr, _join) = server.start_on(&IpaRuntime::current(), h1.socket.take(), ()).await;
+        let port = addr.port();
+        let sid = |i: usize| ShardedHelperIdentity::new(HelperIdentity::make_three()[i], ShardIndex::from(0u32));
+        let identity: ClientIdentity<Helper> = match cred_i {
+            None => ClientIdentity::None,
+            Some(i) => get_client_test_identity(sid(i)).helper,
+        };
+        let client = IpaHttpClient::<Helper>::new(IpaRuntime::current(), &ClientConfig::default(), h1_peer, identity);
+        let (method, pq, body) = match kind {
+            "step" => ("POST", format!("/query/0/step/{gate2}"), body2.clone()),
+            "prepare" => ("POST", format!("/query/0?{VALID_CONFIG_QS}"), roles_body()),
+            _ => ("GET", "/echo?foo=1".to_string(), vec![]),
+        };
+        let mut b = Request::builder().method(method).uri(format!("https://localhost:{port}{pq}"));
+        if kind == "prepare" {
+            b = b.header("content-type", "application/json");
+        }
+        if let Some(h) = &header2 {
+            b = b.header(HELPER_HEADER, h.as_str());
+        }
+        let seen = send_one(&client, b.body(Body::from(body)).unwrap()).await;
+        Ok((seen, reached2.load(Ordering::SeqCst)))
+    });
+    let (seen, hits) = match outcome {
+        Ok(x) => x,
+        Err(e) => return Err(CaseErr::Reject(e)),
+    };
+    let case = json!({
+        "server": "helper ring, TLS", "peer_entries_without_certificate": strip.iter().map(|i| ["A", "B", "C"][*i]).collect::<Vec<_>>(),
+        "credential": format!("{cred:?}"), "identity_header": header, "request": kind,
+        "status": seen.status.map(|s| s.as_u16()), "connection_error": seen.conn_error, "handler_calls": hits,
+    });
+    let mut labels = vec![format!("stripped:{}", strip.len()), format!("cred:{}", match cred { Cred::None => "none", Cred::Cert(_) if cert_known => "known-cert", _ => "cert-of-stripped-peer" }), format!("req:{kind}")];
+    if let Some(e) = &seen.conn_error {
+        // refused during the handshake: fine for a certificate the server no longer knows
+        labels.push(if matches!(cred, Cred::Cert(_)) && !cert_known { "refused_in_handshake".into() } else { "no_verdict:connection_error".to_string() });
+        if !cert_known && hits > 0 {
+            known_or_violation(env, &format!("unverified-caller-served:missing-cert:{kind}"), format!("the handler was reached on behalf of a caller without verified identity ({e}): {case}"), case.clone())?;
+        }
+        return Ok(CaseOk::new(false, &(strip, kind, tag), case).labels(labels));
+    }
+    let status = seen.status.unwrap();
+    if kind == "collector" {
+        if status == StatusCode::UNAUTHORIZED {
+            known_or_violation(env, "collector-route-unreachable:missing-cert", format!("a report-collector route answered 401 ({case})"), case.clone())?;
+        }
+        labels.push("collector_reachable".into());
+    } else if !cert_known {
+        if status != StatusCode::UNAUTHORIZED || hits > 0 {
+            known_or_violation(env, &format!("peer-route-not-401:missing-cert:{kind}"), format!("a TLS caller without a certificate known to the server was answered {status} (handler calls: {hits}): {case}"), case.clone())?;
+        }
+        labels.push("unauthenticated_401".into());
+    } else {
+        if status == StatusCode::UNAUTHORIZED {
+            known_or_violation(env, &format!("certificate-identity-refused:missing-cert:{kind}"), format!("a caller with a certificate the server knows was answered 401: {case}"), case.clone())?;
+        }
+        labels.push("known_certificate_served".into());
+    }
+    Ok(CaseOk::new(true, &(strip, kind, tag, header.is_some()), case).labels(labels))
+}
+
 fn loopback_available() -> bool {
     let Ok(l) = std::net::TcpListener::bind("localhost:0") else { return false };
     let Ok(addr) = l.local_addr() else { return false };
@@ -752,6 +868,10 @@ pub fn subs(_env: &Env) -> Vec<Sub> {
             "24 requests per case against a freshly built helper-ring or shard server (router only): template biased 7:3 to the peer routes of the flavour, registered method 8:2, query id '0' or one of 13 malformed ids, 1-4 gate segments incl. encoded slashes and dot segments, valid / foreign / malformed query strings, empty / roles / truncated JSON / random / 4 KiB bodies, content types, forged x-unverified-* identity headers, structural mutations (extra segment, trailing slash, case, renamed segment); every request classified as peer route => 401 and handler not reached, collector route => not 401/404/405; non-trivial = at least one peer-route request in the case"),
         Sub::random("loopback_identity", 16, 640, 12_000, loopback_identity,
             "real connections to TestServer (helper ring 2/3, shard 1/3) with TLS on (2/3) or disabled; credential under TLS: none / client certificate of helper 1..3 (shard server: of shard 0) / a certificate outside the network; identity header none or one of three identities; request: step (records), prepare, or the collector's status route; expected identity = certificate identity under TLS (header ignored), header identity without TLS; no identity => 401 and nothing served; records must be registered under exactly the expected identity; non-trivial = an HTTP answer was received")
+            .streams(8)
+            .shrink_iters(6),
+        Sub::random("missing_certificates", 16, 240, 6_000, missing_certificates,
+            "real TLS connections to a helper server (MpcHttpTransport::new + start_on) whose own view of the network lacks the certificate of one or two of the three peers (certificates are optional in network.toml; at least one must remain as trust anchor); caller: no client certificate / certificate of peer i (known or stripped), with or without an identity header; request: step, prepare, echo; oracle: without a certificate the server knows, peer routes answer 401 (or the handshake is refused) and the handler is never reached; a known certificate is not answered 401; echo stays reachable")
             .streams(8)
             .shrink_iters(6),
     ]
